@@ -11,19 +11,25 @@ Proposers1 == {1}
 Proposers2 == {1, 2}
 
 CONSTANTS Proposers,     \* proposers whose blocks messages may refer to
-          MaxProp, MaxEnd, MaxCom, MaxForged, MaxClaims, ForgePok
+          MaxProp, MaxEnd, MaxCom, MaxForged, MaxClaims, ForgePok,
+          Canonical      \* TRUE: reduced universe for the larger N (non-empty blocks only, endorse messages in increasing
+                         \* endorser order, commit messages claim an initial segment of the non-proposer peers)
 
 VARIABLES pool, cnt, act
 vars == <<pool, cnt, act>>
 view == <<pool, cnt>>
 
-ClaimSets(c) == {S \in SUBSET (Peers \ {c}) : Cardinality(S) <= MaxClaims}
+ClaimSets(c) == IF Canonical
+                THEN {S \in {{i \in Peers \ Proposers : i <= k /\ i # c} : k \in 0..N} : Cardinality(S) <= MaxClaims}
+                ELSE {S \in SUBSET (Peers \ {c}) : Cardinality(S) <= MaxClaims}
+Emp == IF Canonical THEN {FALSE} ELSE BOOLEAN
+LastEndorser == LET D == {i \in Peers \ Proposers : Len(pool.esigs[i]) > 0} IN IF D = {} THEN 0 ELSE CHOOSE i \in D : \A j \in D : j <= i
 CommitMsgs ==
   {[c |-> c, p |-> p, e |-> e, cok |-> TRUE, pok |-> TRUE, es |-> {[i |-> i, ok |-> TRUE] : i \in S}]
-     : c \in Peers, p \in Proposers, e \in BOOLEAN, S \in UNION {ClaimSets(c) : c \in Peers}}
+     : c \in Peers, p \in Proposers, e \in Emp, S \in UNION {ClaimSets(c) : c \in Peers}}
 ForgedCommitMsgs ==
   {[c |-> c, p |-> p, e |-> e, cok |-> cok, pok |-> pok, es |-> {[i |-> i, ok |-> FALSE] : i \in S}]
-     : c \in Peers, p \in Proposers, e \in BOOLEAN, cok \in BOOLEAN, pok \in (IF ForgePok THEN BOOLEAN ELSE {TRUE}),
+     : c \in Peers, p \in Proposers, e \in Emp, cok \in BOOLEAN, pok \in (IF ForgePok THEN BOOLEAN ELSE {TRUE}),
        S \in UNION {ClaimSets(c) : c \in Peers}}
 IsForgedCommit(m) == ~m.cok \/ ~m.pok \/ \E x \in m.es : ~x.ok
 
@@ -37,6 +43,7 @@ FeedProposal(p) ==
 
 FeedEndorse(i, p, e, ok) ==
   /\ cnt.end < MaxEnd
+  /\ Canonical => (i > LastEndorser /\ i \notin Proposers)
   /\ ok \/ cnt.forged < MaxForged
   /\ pool' = NewEndorse(pool, i, p, e, ok)
   /\ cnt' = [cnt EXCEPT !.end = @ + 1, !.forged = IF ok THEN @ ELSE @ + 1]
@@ -52,7 +59,7 @@ FeedCommit(m) ==
 
 Next ==
   \/ \E p \in Proposers : FeedProposal(p)
-  \/ \E i \in Peers, p \in Proposers, e \in BOOLEAN, ok \in BOOLEAN : FeedEndorse(i, p, e, ok)
+  \/ \E i \in Peers, p \in Proposers, e \in Emp, ok \in BOOLEAN : FeedEndorse(i, p, e, ok)
   \/ \E m \in CommitMsgs \cup ForgedCommitMsgs : FeedCommit(m)
 Spec == Init /\ [][Next]_vars
 
